@@ -351,7 +351,8 @@ func DirectiveUnionState(l *lexer) stateFn {
 		break
 	}
 	level := 0
-	if !l.acceptWord("{") {
+	// (acceptWord would also demand white space after the brace)
+	if l.next() != '{' {
 		l.error("union directive need { to start")
 		return nil
 	}
